@@ -1282,8 +1282,8 @@ impl SecureMemoryPool {
         // due to RefCell not being Sync. Thread-local caches will be cleared
         // when threads exit or when they access the cache and find it should be cleared.
 
-        // Clear allocation tracking
-        self.active_allocations.clear();
+        // Allocation tracking is kept: it holds exactly the chunks that are still
+        // live (a free removes its entry), and they must stay freeable afterwards.
 
         Ok(())
     }
